@@ -93,15 +93,16 @@ Section FS.
     (forall x y, In x (names_of types) -> In y (names_of types) -> pstrop strop es x = pstrop strop es y -> x = y) ->
     (forall t, In t types -> ~ In DOT (pstrop strop es (base_name t))) ->
     ns_fold strop types = false ->                                   (* no two namespaces with the same stropped spelling *)
+    stem_valid stem = true ->                                        (* the stem is a plain file name *)
     (forall k t, In k (keys (fst B)) -> In t types -> np k <> op t) ->
     forall g, NoDup (T g).
   Proof.
-    intros Hinj Hdot Hfold Hsep [|]; [|apply targets_distinct_types_only; assumption].
+    intros Hinj Hdot Hfold Hval Hsep [|]; [|apply targets_distinct_types_only; assumption].
     destruct targets_perm as [P _]. eapply Permutation_NoDup; [apply Permutation_sym, P|].
     destruct (ns_each_once strop same es ext outdir perm perm_perm types r Hnd Hroot Hne) as [Hkn Hkeys].
     apply NoDup_app_intro.
     - apply NoDup_map_inj_in; [assumption|]. intros k1 k2 H1 H2 E.
-      unfold ns_path in E. apply app_inv_head in E. apply app_inj_tail in E. destruct E as [E _].
+      rewrite !ns_path_valid in E by assumption. apply app_inv_head in E. apply app_inj_tail in E. destruct E as [E _].
       apply (ns_fold_false_inj strop types Hfold); [apply Hkeys | apply Hkeys |]; assumption.
     - apply NoDup_map_inj_in; [assumption|]. intros x y Hx Hy. apply (path_injective strop es ext outdir types); assumption.
     - intros q Hq1 Hq2. apply in_map_iff in Hq1. destruct Hq1 as (k & <- & Hk).
@@ -112,11 +113,11 @@ Section FS.
     (forall x y, In x (names_of types) -> In y (names_of types) -> pstrop strop es x = pstrop strop es y -> x = y) ->
     (forall t, In t types -> ~ In DOT (pstrop strop es (base_name t))) ->
     ns_fold strop types = false ->
-    ~ In DOT stem ->
+    stem_valid stem = true -> ~ In DOT stem ->
     (forall t, In t types -> pstrop strop es (base_name t) <> stem) ->   (* the namespace file stem is not a type's file stem *)
     forall g, NoDup (T g).
   Proof.
-    intros Hinj Hdot Hfold Hsd Hstem. apply targets_distinct_gen; try assumption.
+    intros Hinj Hdot Hfold Hval Hsd Hstem. apply targets_distinct_gen; try assumption.
     intros k t Hk Ht E. rewrite ns_path_shape in E by assumption. rewrite path_shape in E by (apply Hdot; assumption).
     apply app_inv_head in E. apply app_inj_tail in E. destruct E as [_ E]. apply app_inv_tail in E.
     exact (Hstem t Ht (eq_sym E)).
@@ -133,23 +134,63 @@ Section FS.
     rewrite E. apply key_eqb_refl.
   Qed.
 
-  (* the stem precondition in terms of the regenerated fact `chk` (does the code have the check?) *)
-  Definition stem_guard (chk : bool) : Prop :=
-    if chk then True else ~ In DOT stem /\ forall t, In t types -> pstrop strop es (base_name t) <> stem.
+  (* the stem preconditions in terms of the regenerated facts: `validate` (Namespace.__init__ validates the stem) and `chk`
+     (build_namespace_tree has the collision check) *)
+  Definition stem_guard (validate chk : bool) : Prop :=
+    (if validate then True else stem_valid stem = true) /\
+    (if chk then True else ~ In DOT stem /\ forall t, In t types -> pstrop strop es (base_name t) <> stem).
 
-  Theorem targets_distinct_no_raise chk :
-    build_checked chk strop same es ext stem outdir perm types <> None ->
+  Lemma no_raise_valid chk : build_checked true chk strop same es ext stem outdir perm types <> None -> stem_valid stem = true.
+  Proof. unfold build_checked. cbn [andb]. destruct (stem_valid stem); [reflexivity | cbn [negb]; congruence]. Qed.
+
+  Theorem targets_distinct_no_raise validate chk :
+    build_checked validate chk strop same es ext stem outdir perm types <> None ->
     (forall x y, In x (names_of types) -> In y (names_of types) -> pstrop strop es x = pstrop strop es y -> x = y) ->
     (forall t, In t types -> ~ In DOT (pstrop strop es (base_name t))) ->
     ns_fold strop types = false ->
-    stem_guard chk ->
+    stem_guard validate chk ->
     forall g, NoDup (T g).
   Proof.
-    intros Hrun Hinj Hdot Hfold Hguard. destruct chk.
+    intros Hrun Hinj Hdot Hfold [G1 G2].
+    assert (V : stem_valid stem = true).
+    { destruct validate; [|exact G1]. unfold build_checked in Hrun. cbn [andb] in Hrun.
+      destruct (stem_valid stem); [reflexivity | cbn [negb] in Hrun; congruence]. }
+    destruct chk.
     - apply targets_distinct_gen; try assumption. apply stem_collides_false.
-      unfold build_checked in Hrun. cbn [andb] in Hrun.
+      unfold build_checked in Hrun. rewrite V in Hrun. cbn [negb andb] in Hrun. rewrite andb_false_r in Hrun.
       destruct (stem_collides strop es ext stem outdir (fst B) types); [congruence | reflexivity].
-    - destruct Hguard as [Hsd Hstem]. apply targets_distinct; assumption.
+    - destruct G2 as [Hsd Hstem]. apply targets_distinct; assumption.
+  Qed.
+
+  (* EVERY stem string: a run that does not raise (with the validation in the code) writes only below the output directory *)
+  Theorem targets_inside_no_raise chk g :
+    build_checked true chk strop same es ext stem outdir perm types <> None ->
+    (forall x, In x (names_of types) -> ident_like (pstrop strop es x)) ->
+    (forall t x, In t types -> In x (t_ns t) -> ident_like (strop x)) ->
+    valid_ext ext ->
+    forall q, In q (T g) ->
+      exists rel, q = outdir ++ rel /\ Forall safe_comp rel /\ forall st, resolve st rel = rev rel ++ st.
+  Proof.
+    intros Hrun Hnames Hns Hext q Hq. pose proof (no_raise_valid chk Hrun) as V.
+    assert (Hsl : ~ In SLASH ext) by (destruct Hext as (e' & _ & _ & X); exact X).
+    apply in_targets in Hq. destruct Hq as [(k & Hk & ->)|(t & Ht & ->)].
+    - apply ns_path_inside_valid; try assumption. intros x Hx. destruct (key_components k x Hk Hx) as (t & Ht & Hxt). eauto.
+    - destruct (path_inside strop es ext outdir types t Ht Hnames Hsl) as (rel & E & _ & F & R). exists rel. auto.
+  Qed.
+
+  (* the same, parametric in the regenerated fact `validate` (does Namespace.__init__ validate the stem?) *)
+  Theorem targets_inside_guarded validate chk g :
+    build_checked validate chk strop same es ext stem outdir perm types <> None ->
+    (if validate then True else stem_valid stem = true) ->
+    (forall x, In x (names_of types) -> ident_like (pstrop strop es x)) ->
+    (forall t x, In t types -> In x (t_ns t) -> ident_like (strop x)) ->
+    valid_ext ext ->
+    forall q, In q (T g) ->
+      exists rel, q = outdir ++ rel /\ Forall safe_comp rel /\ forall st, resolve st rel = rev rel ++ st.
+  Proof.
+    intros Hrun G. destruct validate; [apply targets_inside_no_raise with (chk := chk); exact Hrun|].
+    apply targets_inside_no_raise with (chk := chk).
+    unfold build_checked in *. rewrite G. cbn [negb andb] in *. exact Hrun.
   Qed.
 
   (* what C12 needs: any injective encoding of paths keeps the targets distinct *)
@@ -162,15 +203,17 @@ End FS.
    Namespace.__init__ strops the folder unconditionally, _make_ns_list only when enable_stropping: the two coincide exactly
    when stropping leaves the namespace components alone. *)
 Theorem type_file_folder_stropping_disabled strop ext stem outdir t :
+  stem_valid stem = true ->
   removelast (out_path strop false ext outdir t) = outdir ++ t_ns t /\
   removelast (ns_path strop ext stem outdir (t_ns t)) = outdir ++ map strop (t_ns t) /\
   (removelast (out_path strop false ext outdir t) = removelast (ns_path strop ext stem outdir (t_ns t))
    <-> map strop (t_ns t) = t_ns t).
 Proof.
+  intros V.
   assert (A : removelast (out_path strop false ext outdir t) = outdir ++ t_ns t).
   { unfold out_path, make_path, pstrop. rewrite map_id, !app_assoc, removelast_last. reflexivity. }
   assert (C : removelast (ns_path strop ext stem outdir (t_ns t)) = outdir ++ map strop (t_ns t)).
-  { unfold ns_path. rewrite !app_assoc, removelast_last. reflexivity. }
+  { rewrite (ns_path_valid strop ext stem outdir (t_ns t) V). rewrite !app_assoc, removelast_last. reflexivity. }
   split; [exact A | split; [exact C|]]. rewrite A, C. split.
   - intros E. apply app_inv_head in E. symmetry; exact E.
   - intros E. rewrite E. reflexivity.
@@ -209,6 +252,23 @@ Proof.
 Qed.
 
 Lemma stem_collision_raises_when_checked :
-  build_checked true same same true w_ext w_stem w_out w_id [w_T] = None /\
-  build_checked false same same true w_ext w_stem w_out w_id [w_T] <> None.
+  build_checked true true same same true w_ext w_stem w_out w_id [w_T] = None /\
+  build_checked true false same same true w_ext w_stem w_out w_id [w_T] <> None.
 Proof. vm_compute. split; [reflexivity | discriminate]. Qed.
+
+(* ---- an unvalidated stem that is not a plain file name: G-C11-1 / F-NS-STEM-PATH --------------------------------------------- *)
+Definition w_U : ty := mkTy [w_ns; [97]] [85] 1 0.                       (* ns.a.U.1.0 *)
+Definition w_abs_stem : str := [47; 120].                               (* "/x" *)
+Definition w_up_stem : str := [46; 46; 47; 46; 46; 47; 46; 46; 47; 101]. (* "../../../e" *)
+Lemma stem_path_witness :
+  build_checked false true same same true w_ext w_abs_stem w_out w_id [w_T; w_U] <> None /\
+  build_checked true true same same true w_ext w_abs_stem w_out w_id [w_T; w_U] = None /\
+  build_checked true true same same true w_ext w_up_stem w_out w_id [w_T; w_U] = None /\
+  (* absolute stem: both namespace files are the ONE path /x.h, which does not start with the output directory *)
+  ns_path same w_ext w_abs_stem w_out [w_ns] = [[47]; [120; 46; 104]] /\
+  ns_path same w_ext w_abs_stem w_out [w_ns; [97]] = [[47]; [120; 46; 104]] /\
+  In [[47]; [120; 46; 104]] (c11_targets same true w_ext w_abs_stem w_out true w_id [w_T; w_U]) /\
+  (* "../../../e": the namespace file of ns resolves to a directory ABOVE the output directory *)
+  In (w_out ++ [w_ns; [46; 46]; [46; 46]; [46; 46]; [101; 46; 104]]) (c11_targets same true w_ext w_up_stem w_out true w_id [w_T; w_U]) /\
+  resolve (rev w_out) [w_ns; [46; 46]; [46; 46]; [46; 46]; [101; 46; 104]] = [[101; 46; 104]].
+Proof. vm_compute. repeat split; try reflexivity; try discriminate; auto. Qed.
